@@ -123,6 +123,31 @@ func c07Raw(thorough bool) *explore.Scenario {
 					valid = true
 				}
 			}
+			if err == nil && spec != nil && valid && kind == 0 {
+				// the application's server name is not the capture's: a spec imported from a capture with a
+				// padding extension must be usable under every name length (the padding that reproduces the
+				// captured length shrinks to nothing and below as the name grows)
+				if h, e := wire.ParseClientHello(in[5:]); e == nil && h.Find(21) != nil {
+					for l := 1; l <= 253; l++ {
+						var sp *tls.ClientHelloSpec
+						if catch(func() { sp, _ = f.FingerprintClientHello(in) }) != "" || sp == nil {
+							break
+						}
+						pm := catch(func() {
+							u := tls.UClient(nil, peer.ClientConfig(nameOfLen(l)), tls.HelloCustom)
+							if err := u.ApplyPreset(sp); err != nil {
+								return
+							}
+							u.BuildHandshakeState()
+						})
+						if pm != "" {
+							r.Violate("C07|raw|valid-capture-spec-panics|under-another-name-length|"+errClass(fmt.Errorf("%s", pm)), "%s (input strictly valid), applied with a %d-byte server name: %s", what, l, truncStr(pm, 300))
+							break
+						}
+						r.Count("padded_capture_name_lengths_tried", 1)
+					}
+				}
+			}
 			if err == nil && spec != nil {
 				if pm := useSpec(spec); pm != "" {
 					if valid {
@@ -469,7 +494,7 @@ func c07Scenarios(thorough bool) []*explore.Scenario {
 func init() {
 	register(&Prop{ID: "C07", Level: "exploration", Variant: "A", Scenarios: c07Scenarios,
 		Run: func(c *explore.Check, thorough bool) {
-			c.Rule = "small-scope exhaustive edits of seed inputs. Raw: every corpus ClientHello (all IDs, custom, ECH outer, PSK) x {intact, every byte position x value menu, every 16-bit word set to 0000/ffff, record-layer version x legacy_version over {0300..0304}^2, record truncated to every length, every extension body truncated with fixed prefixes} x all 8 Fingerprinter flag sets through FingerprintClientHello (and FromRaw); extension Write on every body prefix and every byte x 4 values and every 16-bit word x {0000, ffff} for every extension value of the C08 table; JSON: the repository's 4 documents + renderings of corpus hellos x {every subset of the 3 top-level keys x 7 retypings, every extension-object field removed / retyped, text truncated}; tlsfingerprint maps derived from every corpus hello x {intact, each key removed, each value truncated to 0..8 bytes, extended by 1..3 bytes}. Oracle: the importers never panic (watchdog 60 s); for strictly valid inputs (unedited hellos / documents / maps) the returned spec must ApplyPreset + BuildHandshakeState without panicking (for malformed inputs a spec tripping ApplyPreset's assertions is counted, not flagged). distinct = case"
+			c.Rule = "small-scope exhaustive edits of seed inputs. Raw: every corpus ClientHello (all IDs, custom, ECH outer, PSK) x {intact, every byte position x value menu, every 16-bit word set to 0000/ffff, record-layer version x legacy_version over {0300..0304}^2, record truncated to every length, every extension body truncated with fixed prefixes} x all 8 Fingerprinter flag sets through FingerprintClientHello (and FromRaw); extension Write on every body prefix and every byte x 4 values and every 16-bit word x {0000, ffff} for every extension value of the C08 table; JSON: the repository's 4 documents + renderings of corpus hellos x {every subset of the 3 top-level keys x 7 retypings, every extension-object field removed / retyped, text truncated}; tlsfingerprint maps derived from every corpus hello x {intact, each key removed, each value truncated to 0..8 bytes, extended by 1..3 bytes}. Oracle: the importers never panic (watchdog 60 s); for strictly valid inputs (unedited hellos / documents / maps) the returned spec must ApplyPreset + BuildHandshakeState without panicking, and for captures with a padding extension under every server-name length 1..253 (for malformed inputs a spec tripping ApplyPreset's assertions is counted, not flagged). distinct = case"
 			c.Assumptions = []string{"model checking cannot quantify over arbitrary bytes: the claim is the small-scope one (single edits from fixed menus on valid seeds)"}
 			runAll(c, c07Scenarios(thorough), 0)
 			c.Gate(c.Total.Counters["specs_returned"] > 5000, "non-vacuity: %d specs returned", c.Total.Counters["specs_returned"])
